@@ -35,7 +35,7 @@ def sankey_case(rec, hub, rng, tier, i):
     import importlib
 
     sk = importlib.import_module("flodym.export.sankey")
-    d = SY.gen_def(rng, max_flows=8, max_stocks=0)
+    d = SY.gen_def(rng, max_flows=8, max_stocks=0, big_system=0.03, hostile_names=bool(i % 3 == 0))
     if not d.flows:
         return
     names = [SY.flow_name(d, f) for f in d.flows]
